@@ -70,6 +70,13 @@ def spec_items(tier):
              (('a', ((2, one),), F(-1)),), (('a', ((1, one),), F(-3)),))
         yield ('mdp', 4, T, (1,), ((0, one), (2, F(0))), g)
         yield ('mdp', 4, T, (1,), ((0, F(1, 2)), (3, F(0)), (1, F(1, 2))), g)
+    # values of ~1e4 with a real preference of 0.05 (relative 5e-6) between the two actions: below the resolution of the planners'
+    # closeness test (known finding K7)
+    for g, ra, rb in ((F(99, 100), F(-100), F(-2001, 20)), (F(99, 100), F(-50), F(-1001, 20))):
+        T = ((('a', ((0, one),), ra), ('b', ((0, one),), rb)), (('a', ((1, one),), F(0)),))
+        yield ('mdp', 2, T, (1,), ((0, one),), g)
+        T = ((('a', ((0, F(1, 2)), (1, F(1, 2))), ra), ('b', ((0, F(1, 2)), (1, F(1, 2))), rb)), (('a', ((1, one),), F(0)),))
+        yield ('mdp', 2, T, (), ((0, one),), g)
     # three listed actions, states that offer only some of them -- among them states that can never reach an absorbing state
     for g in (F(9, 10), F(1)):
         for acts2 in (('a', 'b'), ('c',), ('a', 'c')):
@@ -198,7 +205,52 @@ def check_result(res, name, mdp, spec, ref, tol, exact_ties, undef, r, item, sla
     return reported
 
 
+K7_KINDS = ('state_value', 'action_value', 'policy_tie_set', 'policy_return_suboptimal', 'initial_value', 'batch_differs_from_single')
+
+
+def near_tie_class(spec):
+    """K7 class predicate, decided exactly: at some non-absorbing state two available actions have DIFFERENT exact optimal
+    action values that numpy's default closeness test (|x - y| <= 1e-8 + 1e-5 |y|, what the planners use to collect the
+    maximising actions) takes for equal -- a real preference the planners cannot see."""
+    try:
+        V, Q = refmdp.optimal(spec, zero=spec.trap())
+    except Exception:
+        return False
+    A = spec.absorbing()
+    for s in range(spec.n):
+        if s in A or s in spec.trap():
+            continue
+        qs = [Q[s, a] for a in spec.acts[s] if Q[s, a] != NEG_INF]
+        for x in qs:
+            for y in qs:
+                if x != y and abs(float(x) - float(y)) <= 2 * (1e-8 + 1e-5 * abs(float(y))):
+                    return True
+    return False
+
+
 def check(item, tier):
+    r0 = _check_inner(item, tier)
+    if not any(v['finding'] is None for v in r0.violations):
+        return r0
+    if not near_tie_class(Spec(item[0])):
+        return r0
+    r = Res()
+    for k, v in r0.counters.items():
+        if k != 'violations_new':
+            r.count(k, v)
+    r.samples, r.nontrivial, r.outcomes, r.notes = r0.samples, r0.nontrivial, r0.outcomes, r0.notes
+    for v in r0.violations:
+        f = v['finding']
+        if f is None and v['kind'].split(':')[-1] in K7_KINDS:
+            f = 'K7'
+        if v['finding'] is None:
+            r.violation(v['kind'], v['detail'], v['item'], finding=f)
+        else:
+            r.violations.append(v)
+    return r
+
+
+def _check_inner(item, tier):
     from msdm.algorithms import ValueIteration, PolicyIteration
     r = Res()
     spec_item, vi, ui, ei, do_batch = item
